@@ -273,9 +273,20 @@ def gen_scenario(rng, small=False):
         if not small:
             has_dup = any(_dup_member(spec, m[0]) for i in ifaces for m in i['methods'])
             r = rng.random()
-            if has_dup and r < 0.3:
+            if (has_dup and r < 0.35) or (len(ifaces) >= 2 and r < 0.15):
+                # a class HIERARCHY (2-3 levels): every interface is declared (dbusInterfaces) and implemented in the
+                # class of its level; interface k+1 never sits above interface k, so getInterfaces() keeps this order.
+                # Shared member names are bound with @dbusMethod in the class of their interface ('hier'), or the
+                # deepest one as a plain dbus_<m> ('hier-mixed': it then serves the others too - documented order).
+                depth = rng.choice([2, 3])
+                spec['layout'] = 'hier' if rng.random() < 0.75 else 'hier-mixed'
+                spec['levels'] = sorted(rng.randrange(depth) for _ in ifaces)
+                if len(set(spec['levels'])) == 1:
+                    spec['levels'][-1] = min(depth - 1, spec['levels'][-1] + 1)
+                spec['depth'] = depth
+            elif has_dup and r < 0.5:
                 spec['layout'] = 'decodbus'       # dbus_<m> itself DECORATED for the first interface, impl_ for the second
-            elif has_dup and r < 0.6:
+            elif has_dup and r < 0.7:
                 spec['layout'] = 'mixed'          # plain dbus_<m> for the first interface, decorated for the second
             elif r < 0.3:
                 spec['layout'] = 'inherit'        # functions spread over base class and sub-class, one overridden
@@ -596,6 +607,7 @@ class Run:
                 ifs.append(DBusInterface(i['name'], *[Method(m[0], arguments=m[1], returns=m[2])
                                                       for m in i['methods']], noRegister=True))
             made = []            # (attr name, function, fid, deco)
+            made_level = []
             first_with = {}
             for ii, i in enumerate(spec['ifaces']):
                 for m in i['methods']:
@@ -606,12 +618,16 @@ class Run:
                     params = ['a%d' % k for k in range(nargs)]
                     dup = _dup_member(spec, m[0])
                     decorated = dup and not (layout == 'mixed' and first_with[m[0]] == ii)
+                    if layout == 'hier-mixed' and dup:
+                        # the occurrence in the DEEPEST class is the plain one
+                        last_with = max(k2 for k2, i2 in enumerate(spec['ifaces']) if any(x[0] == m[0] for x in i2['methods']))
+                        decorated = ii != last_with
                     fname = ('impl_%d_%s' % (ii, m[0])) if decorated else 'dbus_' + m[0]
                     if layout == 'decodbus' and dup and first_with[m[0]] == ii:
                         fname = 'dbus_' + m[0]      # found by getattr first, but decorated: serves its own interface only
                     fid = fid_next[0]
                     fid_next[0] += 1
-                    if layout == 'mixed' and dup and not decorated:
+                    if layout in ('mixed', 'hier-mixed') and dup and not decorated:
                         # the plain function also serves the same member of the other interface (documented binding
                         # order), whose arity may differ: it takes whatever it is given
                         f = self._make_func(ei, fname, ['*args'], False, fid, i['name'], m[0])
@@ -623,7 +639,23 @@ class Run:
                         deco = (i['name'], m[0])
                     f._fid = fid
                     made.append((fname, f, fid, deco))
-            if layout == 'inherit':
+                    made_level.append(spec['levels'][ii] if 'levels' in spec else 0)
+            if layout in ('hier', 'hier-mixed'):
+                depth = spec['depth']
+                level_attrs = [dict() for _ in range(depth)]
+                level_list = [[] for _ in range(depth)]
+                for lv in range(depth):
+                    here = [ifs[k] for k in range(len(ifs)) if spec['levels'][k] == lv]
+                    if here:
+                        level_attrs[lv]['dbusInterfaces'] = here
+                for (fname, f, fid, deco), lv in zip(made, made_level):
+                    level_attrs[lv][fname] = f
+                    level_list[lv].append((fname, fid, deco))
+                klass = objects.DBusObject
+                for lv in range(depth - 1, -1, -1):
+                    klass = type('Exp%d_L%d' % (ei, lv), (klass,), level_attrs[lv])
+                self.layouts.append(level_list)
+            elif layout == 'inherit':
                 # the functions are spread over a base class and a sub-class; one function is defined in both
                 # (the sub-class's definition wins; the base one must never run)
                 split = spec.get('split', [])
